@@ -735,6 +735,9 @@ func (f *funcChecker) inst(r *bsRecord, bb int) (int, bool) {
 		sz := ops[2]
 		al := ops[3]
 		i = 4
+		if al&31 > 30 {
+			fail("alloca alignment exponent field %d exceeds the maximum", al&31)
+		}
 		f.fire("func.operand")
 		if sz >= uint64(instNum) {
 			// absolute id; forward references to later values are not meaningful for an array size
@@ -766,6 +769,9 @@ func (f *funcChecker) inst(r *bsRecord, bb int) (int, bool) {
 			}
 			return -1, true
 		}
+		if ok && have(1) && ops[i] > 30 {
+			fail("load alignment exponent field %d exceeds the maximum", ops[i])
+		}
 		if pt >= 0 {
 			tcheck(f.kindOf(pt) == tPointer, "load from non-pointer type %s", m.tyString(pt))
 			pe := pointee(pt)
@@ -784,6 +790,9 @@ func (f *funcChecker) inst(r *bsRecord, bb int) (int, bool) {
 			exact(2)
 		} else {
 			exact(4)
+		}
+		if ok && ops[i] > 30 {
+			fail("store alignment exponent field %d exceeds the maximum", ops[i])
 		}
 		if pt >= 0 {
 			tcheck(f.kindOf(pt) == tPointer, "store to non-pointer type %s", m.tyString(pt))
